@@ -3,6 +3,11 @@
 Space: C06's scenes (every 3-body tree x joint pattern x feature sets; dedicated contact scenes), which include adhesive
 contacts (penetrating, inside the margin, inside the gap), friction-loss rows on dofs and tendons in both linear zones and the
 quadratic zone (full-speed and 1%-speed worlds) x cone x solver x jacobian; batch of 3 worlds.
+Plus (mc/refs/c24scenes.py) per-world force-law parameters: every batched Model/Option field that enters the row force law
+(impratio, friction, solref, solimp, frictionloss of contacts, explicit pairs, dofs, joint limits, tendons) holding 3
+distinct values along its batch dimension x a geometric sweep of 20 speeds (+ rest, reversed, separating/design) that
+carries contacts from sticking through the stick/slip boundary to full sliding and friction-loss rows from the quadratic
+zone into saturation; world w = (value w % 3, state w // 3), so values x states are crossed exhaustively in one batch.
 Oracle (MJWarp outputs only): unilateral rows (limits, frictionless and elliptic normal rows, pyramidal edges) carry force
 >= -eps; elliptic contact forces lie in the friction cone; |friction-loss force| <= frictionloss; SATISFIED rows carry exactly
 zero force (and non-zero force implies a non-SATISFIED state); qfrc_constraint = J' force; contact_force() agrees with the
@@ -12,6 +17,7 @@ rows it decodes (normal = sum of pyramid edges / normal row, minus adhesion).
 import numpy as np
 
 from mc import space, util
+from mc.refs import c24scenes as bs
 from mc.refs import conscenes as cs
 from mc.refs import cost
 from mc.props import c06
@@ -20,38 +26,95 @@ ID = "C24"
 LEVEL = "exploration"
 RULE = (
   "enumerate C06's scenes; each scenario runs 2 cones x 2 solvers x 2 jacobians on a 3-world batch; non-trivial = at least one "
-  "unilateral or friction-loss row with non-zero force was checked; distinct = canonical hash of the spec"
+  "unilateral or friction-loss row with non-zero force was checked; distinct = canonical hash of the spec. Batched family: "
+  "every force-law field x value assignment x scene variant, each run under the same 8 configs on a batch of 3 values x 23 "
+  "states; non-trivial additionally requires that worlds in the same state but with different values report different forces"
 )
 BOUNDS = {
-  "quick": "feature sets k<=1 (all options) on all 5 trees, k=2 (core options) on one tree each (cycling), joint pattern alternating; 7 dedicated scenes x 2 variants",
-  "thorough": "k<=1 on all trees x both patterns, k=2 (all options) on all trees (pattern alternating), k=3 (core) cycling trees; 7 dedicated scenes x 4 variants",
+  "quick": "feature sets k<=1 (all options) on all 5 trees, k=2 (core options) on one tree each (cycling), joint pattern alternating; 7 dedicated scenes x 2 variants; 18 batched fields x 1 value assignment (world 0 = middle value) x 1 variant x 69 worlds",
+  "thorough": "k<=1 on all trees x both patterns, k=2 (all options) on all trees (pattern alternating), k=3 (core) cycling trees; 7 dedicated scenes x 4 variants; 18 batched fields x 3 value assignments (rotations) x 2 variants x 69 worlds",
 }
 ASSUMPTIONS = [
   "eps = 1e-5*(1+max|force| of the world): sign/zero conditions are exact in the kernels (force is either 0, +-frictionloss or -D*jar with jar<0), the slack only absorbs float32 products in the cone test",
-  "elliptic cone test: sqrt(sum_j (f_j/friction_j)^2) <= f_0*(1+1e-4)+eps, impratio=1",
+  "elliptic cone test: sqrt(sum_j (f_j/friction_j)^2) <= f_0*(1+1e-4)+eps with the contact's own friction coefficients; impratio only regularises the primal cone (mu = friction_0/sqrt(impratio)) and the middle-zone force lies on this cone for every impratio, so the same test applies to every world of an impratio batch",
+  "batched family: speeds form a geometric grid of ratio 2^(1/3) between 0.01 and 0.8 (m/s resp. fraction of the design velocity); a zone narrower than that ratio can be stepped over",
   "adhesion: the admissibility conditions are on efc.force (the solver's cone force); contact_force() reports normal - adhesion and may be negative",
-  "qfrc_constraint = J'force under class f32dyn relative to the magnitudes summed (incl. M*qacc and qfrc_smooth: the Newton path recovers it from the gradient)",
+  "qfrc_constraint = J'force under class f32dyn relative to the magnitudes summed (incl. M*qacc and qfrc_smooth: the Newton path recovers it from the gradient) plus 2 eps32 * max_dof |J|'D(|J||qacc|+|aref|): one float32 rounding of each of the two sums that cancel inside the row law (matters only for stiff rows, e.g. pyramid edges at impratio >= 8)",
   "CPU backend, default warmstart (zero), opt.iterations=100",
 ]
 BUDGET = {"quick": 600, "thorough": 3000}
+EPS32 = 1.1920929e-07
 
 
 def scenarios(tier, seed):
-  return c06.scenarios(tier, seed)
+  # C06's scene families this driver is written for (C06 may enumerate further families for its own oracles)
+  return [s for s in c06.scenarios(tier, seed) if s["fam"] in ("tree", "dedicated")] + bs.scenarios(tier, seed)
 
 
 def worker_init():
   c06.worker_init()
 
 
-def check_world(c, pre, mjw, mjm, m, d, w, cone, tagkey):
-  nefc, rows = util.efc_dense(m, d, w)
+class Snap:
+  """Host copy of everything the checks read, taken once per forward(): rows(w) / contacts(w) return exactly what
+  util.efc_dense(m, d, w) / util.mjw_contacts(d, w) return (those copy every array again for every world)."""
+
+  def __init__(self, m, d):
+    e = d.efc
+    self.nv, self.sparse, self.njmax = m.nv, bool(m.is_sparse), d.njmax
+    self.nefc = d.nefc.numpy()
+    self.J = e.J.numpy()
+    if self.sparse:
+      self.rownnz, self.rowadr, self.colind = e.J_rownnz.numpy(), e.J_rowadr.numpy(), e.J_colind.numpy()
+    self.f = {k: getattr(e, k).numpy() for k in ("type", "id", "pos", "margin", "D", "vel", "aref", "frictionloss", "force", "state")}
+    n = min(int(d.nacon.numpy()[0]), d.naconmax)
+    self.nacon = n
+    c = d.contact
+    names = ("dist", "pos", "frame", "includemargin", "friction", "solref", "solreffriction", "solimp", "dim", "geom", "efc_address", "worldid", "adhesion")
+    self.c = {k: getattr(c, k).numpy()[:n] for k in names}
+    self.qfrc_constraint = d.qfrc_constraint.numpy()
+    self.qacc = d.qacc.numpy()
+    self.qacc_smooth = d.qacc_smooth.numpy()
+    self.M = d.M.numpy()
+
+  def rows(self, w):
+    nefc = min(int(self.nefc[w]), self.njmax)
+    nv = self.nv
+    J = np.zeros((nefc, nv))
+    if self.sparse:
+      rownnz, rowadr, colind, Jv = self.rownnz[w], self.rowadr[w], self.colind[w, 0], self.J[w, 0]
+      for r in range(nefc):
+        a, k = int(rowadr[r]), int(rownnz[r])
+        J[r, colind[a : a + k]] = Jv[a : a + k]
+    else:
+      J[:] = self.J[w, :nefc, :nv]
+    rows = dict(J=J)
+    for k, v in self.f.items():
+      rows[k] = v[w, :nefc].copy() if k in ("type", "id", "state") else v[w, :nefc].astype(np.float64)
+    return nefc, rows
+
+  def contacts(self, w):
+    out = []
+    for i in np.nonzero(self.c["worldid"] == w)[0]:
+      out.append({k: np.array(v[i], dtype=np.float64 if v.dtype.kind == "f" else v.dtype) for k, v in self.c.items()} | {"index": int(i)})
+    return out
+
+  def full_m(self, mjm, w):
+    import mujoco
+
+    out = np.zeros((mjm.nv, mjm.nv))
+    mujoco.mju_sym2dense(out, self.M[w].astype(np.float64), mjm.M_rownnz, mjm.M_rowadr, mjm.M_colind)
+    return out
+
+
+def check_world(c, pre, mjm, S, w, cone, tagkey):
+  nefc, rows = S.rows(w)
   if nefc == 0:
     # no rows: J'force = 0.  The Newton/pyramidal path recovers qfrc_constraint as M*qacc - qfrc_smooth - grad, which leaves
     # float32 cancellation noise (~1e-6 observed); judged by the same class as the loaded case, not bit-exactly.
-    qf = d.qfrc_constraint.numpy()[w].astype(np.float64)
-    M = util.full_m(mjm, d, w)
-    mag = np.abs(M) @ np.abs(d.qacc.numpy()[w].astype(np.float64))
+    qf = S.qfrc_constraint[w].astype(np.float64)
+    M = S.full_m(mjm, w)
+    mag = np.abs(M) @ np.abs(S.qacc[w].astype(np.float64))
     c.close(pre + "qfrc_constraint without rows", qf, np.zeros_like(qf), "f32dyn", scale=1 + float(np.max(mag, initial=0.0)), vkey=f"qfrc_constraint_without_rows:{tagkey}")
     return 0
   t, f, st = rows["type"], rows["force"], rows["state"]
@@ -60,7 +123,7 @@ def check_world(c, pre, mjw, mjm, m, d, w, cone, tagkey):
     return 0
   eps = 1e-5 * (1 + float(np.max(np.abs(f))))
   nchk = 0
-  cons = util.mjw_contacts(d, w)
+  cons = S.contacts(w)
   in_cone = np.zeros(nefc, bool)
   normal = np.zeros(nefc, bool)
   for con in cons:
@@ -115,12 +178,21 @@ def check_world(c, pre, mjw, mjm, m, d, w, cone, tagkey):
     r = int(bad[0])
     c.fail(f"linear_zone_force:{tagkey}", f"{pre}friction row {r} state {int(st[r])}: force {f[r]:.7g} != {want[r]:.7g}")
   # generalized force
-  qfc = d.qfrc_constraint.numpy()[w].astype(np.float64)
-  M = util.full_m(mjm, d, w)
-  qacc = d.qacc.numpy()[w].astype(np.float64)
+  qfc = S.qfrc_constraint[w].astype(np.float64)
+  M = S.full_m(mjm, w)
+  qacc = S.qacc[w].astype(np.float64)
   mag = np.abs(rows["J"].T) @ np.abs(f)
-  mag = np.maximum(mag, np.maximum(np.abs(M) @ np.abs(qacc), np.abs(M) @ np.abs(d.qacc_smooth.numpy()[w].astype(np.float64))))
-  c.close(f"{pre}qfrc_constraint = J'force", qfc, rows["J"].T @ f, "f32dyn", scale=1 + float(np.max(mag)), vkey=f"qfrc_constraint:{tagkey}")
+  mag = np.maximum(mag, np.maximum(np.abs(M) @ np.abs(qacc), np.abs(M) @ np.abs(S.qacc_smooth[w].astype(np.float64))))
+  # stiff rows: force = -D*(J*qacc - aref) cancels |J||qacc| against |aref| (factor ~1e3 for pyramid edges with impratio >= 8,
+  # D ~ 600), so no float32 evaluation of J'force is defined more finely than one rounding of each of the two cancelling sums
+  # |J|'D|J||qacc| and |J|'D|aref|.  The Newton/pyramidal fast path (qfrc_constraint = M*qacc - qfrc_smooth - grad_scale*grad,
+  # grad extrapolated along the Newton ray) leaves the residual of its float32 Cholesky solve there: measured <= 0.91 eps32 of
+  # that magnitude over all batched scenes, seeds 0-3 (every other path: <= 0.02); efc.force itself is that far from the
+  # float64 row law.  In the non-stiff scenes eps32*stiff is 4-12 % of the f32dyn term, i.e. the allowance adds 8-24 % there.
+  stiff = np.abs(rows["J"].T) @ (rows["D"] * (np.abs(rows["J"]) @ np.abs(qacc) + np.abs(rows["aref"])))
+  c.close(
+    f"{pre}qfrc_constraint = J'force", qfc, rows["J"].T @ f, "f32dyn", scale=1 + float(np.max(mag)), vkey=f"qfrc_constraint:{tagkey}", atol=2 * EPS32 * float(np.max(stiff))
+  )
   return nchk
 
 
@@ -161,43 +233,97 @@ def check_contact_force(c, pre, mjw, m, d, cone, tagkey):
   return n
 
 
-def execute(scn):
-  import mujoco
-  import mujoco_warp as mjw
-
-  mjm, info = c06.build(scn)
-  if mjm is None:
-    return dict(ok=True, nontrivial=False, outcome="rejected_by_compiler", info=info)
-  c = util.Cmp()
-  states = info["states"]
-  nchk = nconfig = ncf = 0
+def _configs(mjm):
   for cone in (0, 1):
     mjm.opt.cone = cone
     for jac in (0, 1):
       mjm.opt.jacobian = jac
       for solver in (2, 1):
         mjm.opt.solver = solver
-        m = mjw.put_model(mjm)
-        kw = dict(info["kw"])
-        if jac:
-          kw.setdefault("njmax", 64)
-          kw["njmax_nnz"] = int(kw["njmax"]) * mjm.nv
-        d = mjw.make_data(mjm, nworld=3, **kw)
-        for w, (qpos, qvel) in enumerate(states):
-          util.copy_state(util.mj_data(mjm, qpos=qpos, qvel=qvel), d, world=w)
-        if info["eq_off"]:
-          ea = d.eq_active.numpy()
-          ea[:, info["eq_off"]] = False
-          util.set_field(d.eq_active, ea)
-        mjw.forward(m, d)
-        nconfig += 1
-        tagkey = f"{'newton' if solver == 2 else 'cg'}:{'elliptic' if cone else 'pyramidal'}:{'sparse' if jac else 'dense'}"
-        for w in range(3):
-          nchk += check_world(c, f"{tagkey}:w{w}:", mjw, mjm, m, d, w, cone, tagkey)
-        ncf += check_contact_force(c, f"{tagkey}:", mjw, m, d, cone, tagkey)
+        yield cone, jac, solver, f"{'newton' if solver == 2 else 'cg'}:{'elliptic' if cone else 'pyramidal'}:{'sparse' if jac else 'dense'}"
+
+
+def execute(scn):
+  import mujoco
+  import mujoco_warp as mjw
+
+  if scn["fam"] == "batched":
+    return execute_batched(scn)
+  mjm, info = c06.build(scn)
+  if mjm is None:
+    return dict(ok=True, nontrivial=False, outcome="rejected_by_compiler", info=info)
+  c = util.Cmp()
+  states = info["states"]
+  nchk = nconfig = ncf = 0
+  for cone, jac, solver, tagkey in _configs(mjm):
+    m = mjw.put_model(mjm)
+    kw = dict(info["kw"])
+    if jac:
+      kw.setdefault("njmax", 64)
+      kw["njmax_nnz"] = int(kw["njmax"]) * mjm.nv
+    d = mjw.make_data(mjm, nworld=3, **kw)
+    for w, (qpos, qvel) in enumerate(states):
+      util.copy_state(util.mj_data(mjm, qpos=qpos, qvel=qvel), d, world=w)
+    if info["eq_off"]:
+      ea = d.eq_active.numpy()
+      ea[:, info["eq_off"]] = False
+      util.set_field(d.eq_active, ea)
+    mjw.forward(m, d)
+    nconfig += 1
+    S = Snap(m, d)
+    for w in range(3):
+      nchk += check_world(c, f"{tagkey}:w{w}:", mjm, S, w, cone, tagkey)
+    ncf += check_contact_force(c, f"{tagkey}:", mjw, m, d, cone, tagkey)
   return c.result(
     nontrivial=nchk > 0,
     key=util.sha(scn),
     info=dict(nv=int(mjm.nv), loaded_rows_checked=int(nchk), contact_forces_checked=int(ncf), configs=nconfig, checked=c.nchecked),
     counts=dict(extra_evaluations=nconfig * 3),
+  )
+
+
+def execute_batched(scn):
+  """Per-world force-law parameters (mc/refs/c24scenes.py): world w holds batch entry w % b and state w // b."""
+  import warp as wp
+  import mujoco_warp as mjw
+
+  xml, states, kw0 = bs.scene(scn["scene"], scn["variant"])
+  mjm, err = util.try_load(xml)
+  if mjm is None:
+    return dict(ok=True, nontrivial=False, outcome="rejected_by_compiler", info=err)
+  c = util.Cmp()
+  field, order = scn["field"], scn["order"]
+  b = len(order)
+  nworld = b * len(states)
+  qpos = np.array([states[w // b][1] for w in range(nworld)], dtype=np.float32)
+  qvel = np.array([states[w // b][2] for w in range(nworld)], dtype=np.float32)
+  nchk = nconfig = ncf = neffect = 0
+  for cone, jac, solver, tag in _configs(mjm):
+    m, labels = bs.put_batched(mjw, wp, mjm, field, order, scn["variant"])
+    kw = dict(kw0)
+    if jac:
+      kw.setdefault("njmax", 64)
+      kw["njmax_nnz"] = int(kw["njmax"]) * mjm.nv
+    d = mjw.make_data(mjm, nworld=nworld, **kw)
+    d.qpos.assign(qpos)
+    d.qvel.assign(qvel)
+    mjw.forward(m, d)
+    nconfig += 1
+    tagkey = f"batched:{field}:{tag}"
+    c.true(f"{tagkey}:overflow", not np.any(d.overflow.numpy() & ~c06.OVERFLOW_ITER), "row/contact buffers of the scene overflowed (harness sizing)", vkey="harness_overflow")
+    S = Snap(m, d)
+    for w in range(nworld):
+      nchk += check_world(c, f"{tagkey}:w{w} ({field}[{w % b}] {labels[w % b]}, state {states[w // b][0]}):", mjm, S, w, cone, tagkey)
+    ncf += check_contact_force(c, f"{tagkey}:", mjw, m, d, cone, tagkey)
+    # the batch dimension is not vacuous: same state, different value => different forces
+    F, ne = S.f["force"], S.nefc
+    for si in range(len(states)):
+      ws = range(si * b, si * b + b)
+      if any(ne[w] != ne[si * b] or not np.array_equal(F[w, : ne[w]], F[si * b, : ne[w]]) for w in ws):
+        neffect += 1
+  return c.result(
+    nontrivial=nchk > 0 and neffect > 0,
+    key=util.sha(scn),
+    info=dict(nv=int(mjm.nv), nworld=nworld, loaded_rows_checked=int(nchk), contact_forces_checked=int(ncf), configs=nconfig, states_where_values_differ=neffect, checked=c.nchecked),
+    counts=dict(extra_evaluations=nconfig * nworld),
   )
